@@ -48,8 +48,34 @@ type witness struct {
 	What string   `json:"what"`
 }
 
+// isTimeout: the catalogue shard did not answer or was not ready (no leader known, request lost on
+// its way to a leader that went away): availability, which C14 does not judge.
+func isTimeout(err error) bool {
+	return errors.Is(err, dragonboat.ErrTimeout) || errors.Is(err, context.DeadlineExceeded) || errors.Is(err, dragonboat.ErrShardNotReady) ||
+		errors.Is(err, dragonboat.ErrSystemBusy) || strings.Contains(err.Error(), "timeout") || strings.Contains(err.Error(), "not ready")
+}
+
+// breakingReader fails after `left` bytes.
+type breakingReader struct {
+	r    interface{ Read([]byte) (int, error) }
+	left int
+}
+
+func (b *breakingReader) Read(p []byte) (int, error) {
+	if b.left <= 0 {
+		return 0, errors.New("stream broken (injected)")
+	}
+	if len(p) > b.left {
+		p = p[:b.left]
+	}
+	n, err := b.r.Read(p)
+	b.left -= n
+	return n, err
+}
+
 type mtable struct {
 	id      uint64
+	recover uint64 // recovery shard id left in the catalogue record by a restore that broke off
 	content *model.Table
 }
 
@@ -69,6 +95,9 @@ func main() {
 		}
 		run(r, w.Case)
 		r.Finish()
+	}
+	for i, n := 0, r.Pick(1, 4); i < n; i++ {
+		run(r, caseID{"cluster", r.Seed*6_000_003 + int64(i), 3})
 	}
 	for i, n := 0, r.Pick(1, 10); i < n; i++ {
 		nodes := 1
@@ -97,11 +126,14 @@ func main() {
 	r.FloorCount("creates_ok", int64(r.Pick(8, 80)))
 	r.FloorCount("deletes_ok", int64(r.Pick(5, 50)))
 	r.FloorCount("restores_ok", int64(r.Pick(2, 20)))
+	r.FloorCount("restores_broken_off", int64(r.Pick(1, 10)))
 	r.FloorCount("recreated_tables_read_empty", int64(r.Pick(2, 20)))
 	r.FloorCount("cross_table_isolation_dumps", int64(r.Pick(150, 1500)))
 	r.FloorCount("reconcile_checks", int64(r.Pick(5, 50)))
 	r.FloorCount("create_races", int64(r.Pick(15, 100)))
 	r.FloorCount("diff_cases", int64(r.Pick(2000, 50000)))
+	r.FloorCount("cluster_restores_on_three_nodes", int64(r.Pick(1, 4)))
+	r.FloorCount("cluster_catalogue_replicas_caught_up_by_snapshot", int64(r.Pick(1, 4)))
 	r.FloorCount("id_allocations_interleaved_at_the_sequence", int64(r.Pick(6, 20)))
 	r.Finish()
 }
@@ -116,6 +148,8 @@ func run(r *ev.Run, id caseID) {
 		runDiff(r, id)
 	case "interleave":
 		runInterleave(r, id)
+	case "cluster":
+		runCluster(r, id)
 	}
 }
 
@@ -265,6 +299,51 @@ func runHistory(r *ev.Run, id caseID) {
 			}
 			delete(cat, name)
 			r.Count("deletes_ok", 1)
+		case k < 27 && exists && g.Intn(3) == 0: // a restore of an existing table that breaks off in mid-stream
+			var kvs []model.KV
+			for j := 0; j < 40; j++ {
+				valCtr++
+				kvs = append(kvs, model.KV{K: fmt.Sprintf("broken%02d", j), V: append([]byte(fmt.Sprintf("from-broken-stream-%d|", valCtr)), make([]byte, 2000)...)})
+			}
+			rd, cleanup, err := cluster.SnapshotStream(name, kvs, nil)
+			if err != nil {
+				r.Inconclusive("snapshot stream: " + err.Error())
+				return
+			}
+			w.Ops = append(w.Ops, fmt.Sprintf("restore(%s) whose stream breaks off", name))
+			err = e.Restore(name, &breakingReader{r: rd, left: 3000 + g.Intn(60000)})
+			cleanup()
+			r.Count("catalogue_ops", 1)
+			if err == nil {
+				fail("restore-succeeded-on-broken-stream", fmt.Sprintf("restore(%s) reported success although its stream ended with an error", name))
+				return
+			}
+			// whatever id the attempt consumed is an id "assigned before" for everything that follows;
+			// the table itself is still there with its id and content
+			nt, gerr := e.GetTable(name)
+			if gerr != nil || nt.ClusterID != t.id {
+				fail("failed-restore-changed-the-catalogue", fmt.Sprintf("after the failed restore(%s) lookup gives id %d err %v, before it was id %d", name, nt.ClusterID, gerr, t.id))
+				return
+			}
+			if nt.RecoverID != 0 {
+				if nt.RecoverID <= maxID {
+					fail("table-id-reused", fmt.Sprintf("the restore(%s) that broke off was given recovery shard id %d, but id %d had been assigned before", name, nt.RecoverID, maxID))
+					return
+				}
+				maxID = nt.RecoverID
+				t.recover = nt.RecoverID
+			}
+			c.ReconcileAll()
+			d, derr := dump(e, name)
+			if derr != nil {
+				r.Inconclusive("dump after failed restore: " + derr.Error())
+				return
+			}
+			if why := fsmx.DiffContent(d, t.content); why != "" {
+				fail("failed-restore-changed-the-table", fmt.Sprintf("failed restore(%s): %s", name, why))
+				return
+			}
+			r.Count("restores_broken_off", 1)
 		case k < 27: // restore
 			var kvs []model.KV
 			for j, n := 0, g.Intn(8); j < n; j++ {
@@ -353,6 +432,9 @@ func runHistory(r *ev.Run, id caseID) {
 			var want []uint64
 			for _, t := range cat {
 				want = append(want, t.id)
+				if t.recover != 0 {
+					want = append(want, t.recover) // still catalogued (recover_id of the record)
+				}
 			}
 			sort.Slice(want, func(i, j int) bool { return want[i] < want[j] })
 			for _, n := range c.Nodes {
@@ -822,4 +904,324 @@ func runInterleave(r *ev.Run, id caseID) {
 	}
 	r.Eval(1)
 	r.Sample(map[string]any{"kind": "interleave", "rounds": r.Pick(9, 30), "ids_assigned": len(assigned)})
+}
+
+// runCluster: a three-node cluster whose nodes reconcile continuously (every 100 ms instead of
+// every 30 s). (1) a table is restored through one node while the other nodes only learn about
+// the recovery shard from the catalogue; (2) one node is down while a table is deleted and the
+// catalogue shard takes snapshots and compacts its log, then comes back and catches up: on every
+// node listing, lookup and the running shards must be those of the created-and-not-deleted tables.
+func runCluster(r *ev.Run, id caseID) {
+	g := rand.New(rand.NewSource(id.Seed))
+	c, err := cluster.Start(cluster.Opts{Nodes: 3, RTT: 10, ElectionRTT: 20, MetaSnapshotEntries: 10, MetaCompactionOverhead: 8})
+	if err != nil {
+		r.Inconclusive("engine start: " + err.Error())
+		return
+	}
+	defer c.Close()
+	w := witness{Case: id}
+	fail := func(sig, what string) {
+		w.What = what
+		r.Violation(sig, what, w)
+	}
+	var live [3]atomic.Bool
+	for i := range live {
+		live[i].Store(true)
+	}
+	var stopRec atomic.Bool
+	var rwg sync.WaitGroup
+	rwg.Add(1)
+	go func() {
+		defer rwg.Done()
+		for !stopRec.Load() {
+			for i := range c.Nodes {
+				if live[i].Load() {
+					func() {
+						defer func() { _ = recover() }()
+						_ = c.Nodes[i].Engine.Manager.VerifReconcile()
+					}()
+				}
+			}
+			time.Sleep(100 * time.Millisecond)
+		}
+	}()
+	defer func() { stopRec.Store(true); rwg.Wait() }()
+	e0 := c.Nodes[0].Engine
+	var maxID uint64
+	content := map[string]*model.Table{}
+	create := func(e *storage.Engine, name string) bool {
+		w.Ops = append(w.Ops, "create("+name+")")
+		tb, err := e.CreateTable(name)
+		for a := 0; a < 3 && err != nil && isTimeout(err); a++ {
+			// the catalogue shard did not answer in time (elections, snapshot catch-up of a replica):
+			// an availability hiccup, not what is judged here. The attempt may have taken effect.
+			r.Count("catalogue_timeouts_retried", 1)
+			if at, gerr := e.GetTable(name); gerr == nil && at.ClusterID > maxID {
+				tb, err = at.Table, nil
+				break
+			}
+			time.Sleep(200 * time.Millisecond)
+			tb, err = e.CreateTable(name)
+		}
+		r.Count("catalogue_ops", 1)
+		if err != nil && isTimeout(err) {
+			r.Inconclusive("create(" + name + ") kept timing out: " + err.Error())
+			return false
+		}
+		if err != nil {
+			fail("create-failed-for-free-name", fmt.Sprintf("create(%s) failed: %v", name, err))
+			return false
+		}
+		if tb.ClusterID <= maxID {
+			fail("table-id-reused", fmt.Sprintf("create(%s) gave id %d, but id %d had been assigned before", name, tb.ClusterID, maxID))
+			return false
+		}
+		maxID = tb.ClusterID
+		content[name] = model.NewTable()
+		return true
+	}
+	put := func(name, k, v string) bool {
+		var err error
+		for a := 0; a < 100; a++ {
+			ctx, cancel := ctx10()
+			_, err = e0.Put(ctx, &pb.PutRequest{Table: []byte(name), Key: []byte(k), Value: []byte(v)})
+			cancel()
+			if err == nil {
+				content[name].M[k] = []byte(v)
+				return true
+			}
+			time.Sleep(50 * time.Millisecond)
+		}
+		r.Inconclusive("put into " + name + ": " + err.Error())
+		return false
+	}
+	for _, n := range []string{"keep", "gone"} {
+		if !create(e0, n) {
+			return
+		}
+		for j := 0; j < 4; j++ {
+			if !put(n, fmt.Sprintf("k%d", j), fmt.Sprintf("%s-%d", n, g.Intn(1000))) {
+				return
+			}
+		}
+	}
+	// (1) restore through node 2; nodes 1 and 3 start the recovery shard when they reconcile
+	{
+		var kvs []model.KV
+		exp := model.NewTable()
+		for j := 0; j < 6; j++ {
+			kv := model.KV{K: fmt.Sprintf("r%d", j), V: []byte(fmt.Sprintf("restored-%d", g.Intn(1000)))}
+			kvs = append(kvs, kv)
+			exp.M[kv.K] = kv.V
+		}
+		rd, cleanup, err := cluster.SnapshotStream("keep", kvs, nil)
+		if err != nil {
+			r.Inconclusive("snapshot stream: " + err.Error())
+			return
+		}
+		w.Ops = append(w.Ops, "restore(keep) through node 2 of 3")
+		err = c.Nodes[1].Engine.Restore("keep", rd)
+		cleanup()
+		r.Count("catalogue_ops", 1)
+		if err != nil {
+			// which half failed: reconciliation (the catalogued recovery shard never started on the
+			// other nodes: judged) or the availability of a started shard (not judged)?
+			rec, _ := c.Nodes[1].Engine.GetTable("keep")
+			missing := ""
+			if rec.RecoverID != 0 {
+				for i, n := range c.Nodes {
+					runs := false
+					for a := 0; a < 30 && !runs; a++ {
+						for _, sid := range runningUserShards(n.Engine) {
+							runs = runs || sid == rec.RecoverID
+						}
+						if !runs {
+							time.Sleep(100 * time.Millisecond)
+						}
+					}
+					if !runs {
+						missing += fmt.Sprintf(" node %d runs %v;", i+1, runningUserShards(n.Engine))
+					}
+				}
+			}
+			if missing != "" {
+				fail("restore-failed", fmt.Sprintf("restore(keep) through node 2 of a three-node cluster whose nodes reconcile every 100 ms failed (%v): the catalogue record carries recovery shard %d, which is not running on:%s", err, rec.RecoverID, missing))
+				return
+			}
+			if isTimeout(err) {
+				r.Inconclusive("restore(keep) on three nodes: " + err.Error() + " although every node runs the recovery shard")
+				return
+			}
+			fail("restore-failed", fmt.Sprintf("restore(keep) through node 2 of a three-node cluster failed: %v", err))
+			return
+		}
+		nt, err := c.Nodes[1].Engine.GetTable("keep")
+		if err != nil {
+			fail("restored-table-not-in-catalogue", err.Error())
+			return
+		}
+		if nt.ClusterID <= maxID {
+			fail("table-id-reused", fmt.Sprintf("restore(keep) gave the table id %d, but id %d had been assigned before", nt.ClusterID, maxID))
+			return
+		}
+		maxID = nt.ClusterID
+		content["keep"] = exp
+		for i, n := range c.Nodes {
+			var d *model.Table
+			var err error
+			for a := 0; a < 100; a++ { // the node's own catalogue view may lag (stale reads): bounded wait
+				if at, gerr := n.Engine.GetTable("keep"); gerr == nil && at.ClusterID == nt.ClusterID {
+					d, err = dump(n.Engine, "keep")
+					if err == nil {
+						break
+					}
+				}
+				time.Sleep(100 * time.Millisecond)
+			}
+			if d == nil {
+				r.Inconclusive(fmt.Sprintf("node %d never served the restored table: %v", i+1, err))
+				return
+			}
+			if why := fsmx.DiffContent(d, exp); why != "" {
+				fail("restored-content-differs", fmt.Sprintf("restore(keep) read through node %d: %s", i+1, why))
+				return
+			}
+		}
+		r.Count("cluster_restores_on_three_nodes", 1)
+		r.Count("restores_ok", 1)
+		r.Nontrivial(fmt.Sprint("cluster-restore", id.Seed))
+	}
+	// (2) node 3 down; delete + catalogue churn (snapshots, log compaction); node 3 back
+	live[2].Store(false)
+	time.Sleep(150 * time.Millisecond)
+	c.StopNode(2)
+	// wait (bounded) until the two remaining nodes agree on a live leader of the catalogue shard: a
+	// request forwarded to the leader that just went away is lost and only ends after 30 s
+	for a := 0; a < 100; a++ {
+		l1, _, ok1, _ := c.Nodes[0].Engine.GetLeaderID(1000)
+		l2, _, ok2, _ := c.Nodes[1].Engine.GetLeaderID(1000)
+		if ok1 && ok2 && l1 == l2 && (l1 == 1 || l1 == 2) {
+			break
+		}
+		time.Sleep(50 * time.Millisecond)
+	}
+	w.Ops = append(w.Ops, "node 3 stopped", "delete(gone)")
+	del := func(name string) bool {
+		err := e0.DeleteTable(name)
+		for a := 0; a < 3 && err != nil && isTimeout(err); a++ {
+			r.Count("catalogue_timeouts_retried", 1)
+			err = e0.DeleteTable(name)
+			if errors.Is(err, serrors.ErrTableNotFound) {
+				err = nil // the attempt that timed out had taken effect
+			}
+		}
+		if err != nil && isTimeout(err) {
+			r.Inconclusive("delete(" + name + ") kept timing out: " + err.Error())
+			return false
+		}
+		if err != nil {
+			fail("delete-failed-for-existing-name", fmt.Sprintf("delete(%s) failed: %v", name, err))
+			return false
+		}
+		return true
+	}
+	if !del("gone") {
+		return
+	}
+	delete(content, "gone")
+	r.Count("catalogue_ops", 1)
+	r.Count("deletes_ok", 1)
+	for j := 0; j < 8; j++ {
+		n := fmt.Sprintf("tmp%d", j)
+		if !create(e0, n) {
+			return
+		}
+		w.Ops = append(w.Ops, "delete("+n+")")
+		if !del(n) {
+			return
+		}
+		delete(content, n)
+		r.Count("catalogue_ops", 1)
+	}
+	if !create(e0, "late") {
+		return
+	}
+	w.Ops = append(w.Ops, "node 3 started")
+	if err := c.StartNode(2); err != nil {
+		r.Inconclusive("node 3 restart: " + err.Error())
+		return
+	}
+	live[2].Store(true)
+	// barrier: node 3's catalogue replica has caught up when it lists the table created last
+	caught := false
+	for a := 0; a < 600 && !caught; a++ {
+		if _, err := c.Nodes[2].Engine.GetTable("late"); err == nil {
+			caught = true
+			break
+		}
+		time.Sleep(100 * time.Millisecond)
+	}
+	if !caught {
+		r.Inconclusive("node 3 did not catch up with the catalogue within 60 s")
+		return
+	}
+	r.Count("cluster_catalogue_replicas_caught_up_by_snapshot", 1)
+	time.Sleep(300 * time.Millisecond) // a few reconciliation passes
+	var want []uint64
+	for i, n := range c.Nodes {
+		ts, err := n.Engine.GetTables()
+		if err != nil {
+			r.Inconclusive(fmt.Sprintf("list on node %d: %v", i+1, err))
+			return
+		}
+		var got []string
+		ids := []uint64{}
+		for _, t := range ts {
+			got = append(got, t.Name)
+			ids = append(ids, t.ClusterID)
+		}
+		sort.Strings(got)
+		sort.Slice(ids, func(a, b int) bool { return ids[a] < ids[b] })
+		if fmt.Sprint(got) != "[keep late]" {
+			fail("list-differs-from-catalogue", fmt.Sprintf("node %d lists %v; created and not deleted: [keep late] (node 3 was down while 'gone' and tmp0..7 were deleted and caught up afterwards)", i+1, got))
+			return
+		}
+		if _, err := n.Engine.GetTable("gone"); !errors.Is(err, serrors.ErrTableNotFound) {
+			fail("lookup-differs-from-catalogue", fmt.Sprintf("lookup(gone) on node %d: err %v, the table was deleted", i+1, err))
+			return
+		}
+		if i == 0 {
+			want = ids
+		}
+	}
+	// running shards = catalogued shards on every node (bounded wait for node 3's start-up)
+	for i, n := range c.Nodes {
+		ok := false
+		var got []uint64
+		for a := 0; a < 100 && !ok; a++ {
+			got = runningUserShards(n.Engine)
+			ok = fmt.Sprint(got) == fmt.Sprint(want)
+			if !ok {
+				time.Sleep(100 * time.Millisecond)
+			}
+		}
+		if !ok {
+			fail("running-shards-differ-from-catalogue-after-reconcile", fmt.Sprintf("node %d runs user shards %v 10 s after the catalogue settled, catalogue has %v", i+1, got, want))
+			return
+		}
+		r.Count("reconcile_checks", 1)
+	}
+	// the deleted name is free again, also through the node that was away
+	if !create(c.Nodes[2].Engine, "gone") {
+		return
+	}
+	d, err := dump(c.Nodes[2].Engine, "gone")
+	if err == nil && len(d.M) != 0 {
+		fail("recreated-table-not-empty", fmt.Sprintf("table 'gone' recreated through node 3 holds %d pairs", len(d.M)))
+		return
+	}
+	r.Count("recreated_tables_read_empty", 1)
+	r.Eval(1)
+	r.Nontrivial(fmt.Sprint("cluster-catch-up", id.Seed))
+	r.Sample(map[string]any{"kind": "cluster", "ops": head(w.Ops, 30)})
 }
